@@ -157,6 +157,46 @@ pub fn assignment(rng: &mut Rng, schema: &SchemaDoc, vars: &[VarDef], foreign_en
     Some(J::Obj(m))
 }
 
+/// paths of the non-null positions of an assignment (variables and input-object members)
+fn nonnull_sites(schema: &SchemaDoc, ty: &GType, j: &J, path: &mut Vec<resp::PE>, member: bool, out: &mut Vec<(Vec<resp::PE>, bool)>) {
+    match ty {
+        GType::NonNull(u) => {
+            // a custom scalar is the consumer's type (serde_json::Value here takes null): not probed
+            let custom = matches!(&**u, GType::Named(n) if schema.kind_of(n) == "SCALAR" && !BUILTIN.contains(&n.as_str()));
+            if !custom {
+                out.push((path.clone(), member));
+            }
+            nonnull_sites(schema, u, j, path, member, out);
+        }
+        GType::List(u) => {
+            if let J::Arr(items) = j {
+                for (i, x) in items.iter().enumerate() {
+                    path.push(resp::PE::Idx(i));
+                    nonnull_sites(schema, u, x, path, false, out);
+                    path.pop();
+                }
+            }
+        }
+        GType::Named(n) => {
+            if let (J::Obj(m), "INPUT_OBJECT") = (j, schema.kind_of(n)) {
+                let def = schema.defs.iter().find_map(|d| if let TypeDef::Input { name, fields, one_of } = d { if name == n { Some((fields.clone(), *one_of)) } else { None } } else { None });
+                if let Some((fields, one_of)) = def {
+                    if one_of {
+                        return;
+                    }
+                    for (k, t) in &fields {
+                        if let Some((_, v)) = m.iter().find(|(k2, _)| k2 == k) {
+                            path.push(resp::PE::Key(k.clone()));
+                            nonnull_sites(schema, t, v, path, true, out);
+                            path.pop();
+                        }
+                    }
+                }
+            }
+        }
+    }
+}
+
 pub fn op_vars(p: &Program, op: &str) -> Vec<VarDef> {
     p.doc.defs.iter().find_map(|d| if let QDef::Op { name: Some(n), vars, .. } = d { if n == op { Some(vars.clone()) } else { None } } else { None }).unwrap_or_default()
 }
@@ -255,6 +295,36 @@ pub fn run(outdir: &Path, tier: &str, seed: u64, shards: usize, replay: Option<S
                 }
             }
         }
+        // single-point corruptions: null at / removal of a non-null variable or input-object member
+        if replay.is_none() {
+            let base: Vec<J> = vs.iter().take(2).map(|(_, a)| a.clone()).collect();
+            for a in base {
+                let mut sites = vec![];
+                if let J::Obj(m) = &a {
+                    for v in &vars {
+                        if let Some((_, x)) = m.iter().find(|(k, _)| k == &v.name) {
+                            let mut path = vec![resp::PE::Key(v.name.clone())];
+                            nonnull_sites(&pr.p.schema, &v.ty, x, &mut path, v.default.is_none(), &mut sites);
+                        }
+                    }
+                }
+                rng.shuffle(&mut sites);
+                for (path, member) in sites.into_iter().take(3) {
+                    let mut q = a.clone();
+                    if resp::set_at(&mut q, &path, Some(J::Null)) {
+                        *dist.entry("corrupt/null at non-null input position".into()).or_default() += 1;
+                        vs.push(("corrupt:null at non-null".into(), q));
+                    }
+                    if member {
+                        let mut q = a.clone();
+                        if resp::set_at(&mut q, &path, None) {
+                            *dist.entry("corrupt/non-null input member removed".into()).or_default() += 1;
+                            vs.push(("corrupt:non-null member removed".into(), q));
+                        }
+                    }
+                }
+            }
+        }
         for (_, a) in &vs {
             all.push((pr.idx, "vars".to_string(), a.text()));
         }
@@ -324,7 +394,7 @@ pub fn run(outdir: &Path, tier: &str, seed: u64, shards: usize, replay: Option<S
     let cs = CaseSet {
         run_module: "RunVars".into(),
         cases,
-        checkers: ["corr_gen", "corr_serde", "spec_gen", "prop_c04", "known_enum_other"].iter().map(|s| s.to_string()).collect(),
+        checkers: ["corr_gen", "corr_serde", "corr_spec", "prop_c04", "known_enum_other"].iter().map(|s| s.to_string()).collect(),
         extra_imports: vec!["Json".into(), "TypeExpr".into(), "Schema".into(), "Query".into(), "Attrs".into(), "Codegen".into(), "RunSerde".into(), "RunGen".into()],
         preludes: vec![],
     };
